@@ -569,7 +569,7 @@ func c45RunSteps(t testing.TB, sys actor.ActorSystem, c c45StepCase) c45StepResu
 	}
 	defer spid.Shutdown(ctx)
 	drain := func() []int64 {
-		r, err := actor.Ask(ctx, ppid, &c45Drain{}, 5*time.Second)
+		r, err := actor.Ask(ctx, ppid, &c45Drain{}, 20*time.Second)
 		if err != nil {
 			return []int64{97}
 		}
@@ -586,7 +586,7 @@ func c45RunSteps(t testing.TB, sys actor.ActorSystem, c c45StepCase) c45StepResu
 		select {
 		case st := <-wrap.stepped:
 			return st, true
-		case <-time.After(5 * time.Second):
+		case <-time.After(20 * time.Second):
 			return nil, false
 		}
 	}
@@ -630,7 +630,7 @@ func c45RunSteps(t testing.TB, sys actor.ActorSystem, c c45StepCase) c45StepResu
 			select {
 			case st := <-wrap.stepped:
 				res.Steps = append(res.Steps, c45StepObs{Alive: !wrap.stopped.Load(), State: st, Out: drain()})
-			case <-time.After(5 * time.Second):
+			case <-time.After(20 * time.Second):
 				res.Steps = append(res.Steps, c45StepObs{Alive: !wrap.stopped.Load(), State: []int64{-999}})
 			}
 			continue
